@@ -12,7 +12,12 @@ if '--fast' in sys.argv:
     cmd += ['-n', '16']
 env = dict(os.environ)
 env.pop('ECMWF_IFS_LOKI_VERIF', None)
-p = subprocess.run(cmd, cwd='/repo', env=env, capture_output=True, text=True)
+root = '/repo'
+for a in sys.argv[1:]:
+    if a.startswith('--root='):
+        root = a.split('=', 1)[1]
+        env['PYTHONPATH'] = root
+p = subprocess.run(cmd, cwd=root, env=env, capture_output=True, text=True)
 passed = set()
 for tc in ET.parse(xml).getroot().iter('testcase'):
     if not any(ch.tag in ('failure', 'error', 'skipped') for ch in tc):
